@@ -298,7 +298,7 @@ type poolPoint struct {
 func init() {
 	core.Register(&core.Rule{
 		Name: "R-POOL",
-		Doc: "Typestate of per-search state: a value obtained from sync.Pool.Get / atomic.Pointer.Swap(nil) (directly or through a getter wrapper such as getSearchState) is (a) handed back (Pool.Put, CompareAndSwap(nil,x), or a putter wrapper; directly or by defer) on every path to return unless the function itself returns it, (b) never used after it was handed back, (c) never handed back twice, (d) handed back only by the function that obtained it: a put of a received value (a parameter, an element of a variadic parameter, on any incoming edge of a phi) is a violation outside the putter wrappers. (b),(c),(d) are necessary for C06 (the next Get in another goroutine receives the same object); (a) is necessary for C20 (a leaked state is re-allocated by Pool.New on every call, so steady-state calls allocate) and C13.",
+		Doc: "Typestate of per-search state: a value obtained from sync.Pool.Get / atomic.Pointer.Swap(nil) (directly or through a getter wrapper such as getSearchState) is (a) handed back (Pool.Put, CompareAndSwap(nil,x), or a putter wrapper; directly or by defer) on every path to return unless the function itself returns it, (b) never used after it was handed back, (c) never handed back twice, (d) handed back only by the function that obtained it: a put of a received value (a parameter, an element of a variadic parameter, on any incoming edge of a phi) is a violation outside the putter wrappers. (e) a putter wrapper never writes the state it hands back into an atomic.Pointer slot with an unconditional Store (a state parked there by another holder would be overwritten and lost; the slot is filled by CompareAndSwap(nil, x), overflow goes to the pool). (b),(c),(d) are necessary for C06 (the next Get in another goroutine receives the same object); (a) and (e) are necessary for C20 (a leaked state is re-allocated by Pool.New on every call, so steady-state calls allocate) and C13.",
 		Min: 50, NeedSSA: true,
 		ThoroughArchs: []string{"arm64"},
 		Run: func(p *core.Prog) *core.RuleResult {
@@ -335,6 +335,20 @@ func init() {
 						o.Path = viol
 					}
 					res.Obligations = append(res.Obligations, o)
+					// (e) a wrapper parks the handed-back state in a single-slot cache only if the slot is free
+					for _, b := range fn.Blocks {
+						for _, in := range b.Instrs {
+							c, ok := in.(ssa.CallInstruction)
+							if !ok || !isAtomicPointerMethod(c.Common().StaticCallee(), "Store") || len(c.Common().Args) != 2 {
+								continue
+							}
+							if stripAlias(c.Common().Args[1]) != ssa.Value(fn.Params[pi]) {
+								continue
+							}
+							res.Obligations = append(res.Obligations, core.Obligation{Key: kc.Key("R-POOL", core.FuncName(fn), "slot filled only when free"), Pos: p.Pos(in.Pos()), Nontrivial: true, Status: core.Violated,
+								Detail: "the handed-back state is written into the single-slot cache with an unconditional Store: a state that another holder parked there in the meantime is overwritten and lost, and nothing reaches the pool any more, so the next nested or concurrent acquisition builds a whole new state (steady-state calls allocate). The slot is filled with CompareAndSwap(nil, x); overflow goes to the pool"})
+						}
+					}
 				}
 			}
 			// (d) only the owner hands back: outside the putter wrappers, a handed-back value comes from a get of
